@@ -487,9 +487,9 @@ def final (before : List (Name × Nat)) (link : Option (Name × Name)) (after : 
       | some c => some (.file c)
       | none => d.get m
 
-/-- the only link a directory may hold is the one this run creates -/
+/-- the only link a directory may hold is the one this run creates, pointing where this run points it -/
 def OnlyLink (link : Option (Name × Name)) (d : Dir) : Prop :=
-  ∀ n t', d.get n = some (.link t') → ∃ t, link = some (n, t)
+  ∀ n t', d.get n = some (.link t') → link = some (n, t')
 
 theorem lastWrite_none_of_not_mem (ws : List (Name × Nat)) (m : Name) (h : (names ws).contains m = false) :
     lastWrite ws m = none := by
@@ -509,6 +509,89 @@ theorem mem_names_of_lastWrite (ws : List (Name × Nat)) (m : Name) (c : Nat) (h
   | true => rfl
   | false => rw [lastWrite_none_of_not_mem ws m hc] at h; simp at h
 
+theorem resolve_link (d : Dir) (s t : Name) (fuel : Nat) (hs : d.get s = some (.link t))
+    (ht : ∀ t', d.get t ≠ some (.link t')) : resolve d (fuel + 2) s = some t := by
+  rw [resolve, hs]
+  exact resolve_not_link d t fuel ht
+
+/-- writes before the link is made may go through the link a previous run left: they then land in `t` -/
+theorem run_writes_through (s t : Name) (hst : s ≠ t) (ws : List (Name × Nat)) : ∀ (d : Dir),
+    OnlyLink (some (s, t)) d →
+    ∃ d', run (ws.map (fun w => Op.write w.1 w.2)) d = .ok d' ∧ OnlyLink (some (s, t)) d' ∧
+      ∀ m, m ≠ s → m ≠ t → d'.get m = match lastWrite ws m with
+        | some c => some (.file c)
+        | none => d.get m := by
+  induction ws with
+  | nil => intro d hP; exact ⟨d, rfl, hP, fun m _ _ => by simp [lastWrite]⟩
+  | cons w ws ih =>
+    intro d hP
+    have htnl : ∀ t', d.get t ≠ some (.link t') := by
+      intro t' h
+      have := hP t t' h
+      simp at this
+      exact hst this.1
+    -- where the write lands
+    have hland : ∃ k, step d (.write w.1 w.2) = .ok (d.set k (.file w.2)) ∧ (k = w.1 ∨ (w.1 = s ∧ k = t)) := by
+      cases hg : d.get w.1 with
+      | none =>
+        refine ⟨w.1, ?_, Or.inl rfl⟩
+        have : ∀ t', d.get w.1 ≠ some (.link t') := by intro t' h; rw [hg] at h; simp at h
+        simp only [step, maxLinks, resolve_not_link d w.1 40 this]
+      | some e =>
+        cases e with
+        | file c =>
+          refine ⟨w.1, ?_, Or.inl rfl⟩
+          have : ∀ t', d.get w.1 ≠ some (.link t') := by intro t' h; rw [hg] at h; simp at h
+          simp only [step, maxLinks, resolve_not_link d w.1 40 this]
+        | link t' =>
+          have := hP w.1 t' hg
+          simp at this
+          obtain ⟨e1, e2⟩ := this
+          rw [← e2] at hg
+          refine ⟨t, ?_, Or.inr ⟨e1.symm, rfl⟩⟩
+          simp only [step, maxLinks, resolve_link d w.1 t 39 hg htnl]
+    obtain ⟨k, hstep, hk⟩ := hland
+    have hP' : OnlyLink (some (s, t)) (d.set k (.file w.2)) := by
+      intro n t' h
+      rw [get_set] at h
+      by_cases e : k = n
+      · simp [e] at h
+      · simp only [e, if_false] at h
+        exact hP n t' h
+    obtain ⟨d', hrun, hPd', hget⟩ := ih (d.set k (.file w.2)) hP'
+    refine ⟨d', ?_, hPd', ?_⟩
+    · simp only [List.map_cons, run, hstep]
+      exact hrun
+    · intro m hms hmt
+      rw [hget m hms hmt]
+      simp only [lastWrite]
+      cases lastWrite ws m with
+      | some c => rfl
+      | none =>
+        rw [get_set]
+        rcases hk with hk | ⟨hw, hk⟩
+        · subst hk
+          by_cases h : w.1 = m <;> simp [h]
+        · subst hk
+          have h1 : ¬ k = m := fun e => hmt e.symm
+          have h2 : ¬ w.1 = m := fun e => hms (by rw [← e, hw])
+          simp [h1, h2]
+
+theorem lastWrite_some_of_mem : ∀ (ws : List (Name × Nat)) (m : Name), (names ws).contains m = true →
+    (lastWrite ws m).isSome = true
+  | [], _, h => by simp [names] at h
+  | w :: ws, m, h => by
+    simp only [lastWrite]
+    cases hl : lastWrite ws m with
+    | some c => rfl
+    | none =>
+      simp only [names, List.map_cons, List.contains_cons, Bool.or_eq_true] at h
+      rcases h with h | h
+      · have : w.1 = m := by simpa using Eq.symm (by simpa using h)
+        simp [this]
+      · have := lastWrite_some_of_mem ws m (by simpa [names] using h)
+        rw [hl] at this; simp at this
+
 /-- one run, from any directory whose only possible link is the run's own symlink -/
 theorem run_characterization (before : List (Name × Nat)) (link : Option (Name × Name))
     (after : List (Name × Nat)) (hwf : wfRun before link after = true) (d : Dir) (hP : OnlyLink link d) :
@@ -518,8 +601,8 @@ theorem run_characterization (before : List (Name × Nat)) (link : Option (Name 
   | none =>
     have hno : ∀ n t', d.get n ≠ some (.link t') := by
       intro n t' h
-      obtain ⟨t, ht⟩ := hP n t' h
-      simp at ht
+      have := hP n t' h
+      simp at this
     obtain ⟨d₁, hr₁, hg₁⟩ := run_writes before d (fun w _ t => hno w.1 t)
     have hno₁ : ∀ n t', d₁.get n ≠ some (.link t') := by
       intro n t'
@@ -545,13 +628,13 @@ theorem run_characterization (before : List (Name × Nat)) (link : Option (Name 
       | none => exact hg₁ m
   | some st =>
     obtain ⟨s, t⟩ := st
-    simp only [wfRun, Bool.and_eq_true, Bool.not_eq_true'] at hwf
-    obtain ⟨hsb, hsa⟩ := hwf
-    -- the only possible link is at `s`, and `s` is never written
+    simp only [wfRun, Bool.and_eq_true, Bool.not_eq_true', Bool.or_eq_true, bne_iff_ne, ne_eq] at hwf
+    obtain ⟨hsa, hcase⟩ := hwf
+    -- a name other than `s` is never a link
     have hlink : ∀ (d : Dir), OnlyLink (some (s, t)) d → ∀ (ws : List (Name × Nat)),
         (names ws).contains s = false → ∀ w ∈ ws, ∀ t', d.get w.1 ≠ some (.link t') := by
       intro d hP ws hs w hw t' h
-      obtain ⟨t₀, ht₀⟩ := hP w.1 t' h
+      have ht₀ := hP w.1 t' h
       have e : s = w.1 := by simp at ht₀; exact ht₀.1
       have : (names ws).contains s = true := by
         rw [e]
@@ -559,8 +642,32 @@ theorem run_characterization (before : List (Name × Nat)) (link : Option (Name 
         exact List.mem_map.mpr ⟨w, hw, rfl⟩
       rw [this] at hs
       exact absurd hs (by simp)
-    obtain ⟨d₁, hr₁, hg₁⟩ := run_writes before d (hlink d hP before hsb)
-    -- unlink (missing ok), then symlink
+    -- phase 1: the writes before the link; away from `s` and `t` they are plain overwrites
+    have hphase1 : ∃ d₁, run (before.map (fun w => Op.write w.1 w.2)) d = .ok d₁ ∧ OnlyLink (some (s, t)) d₁ ∧
+        ∀ m, m ≠ s → (m ≠ t ∨ (names before).contains s = false) →
+          d₁.get m = match lastWrite before m with
+            | some c => some (.file c)
+            | none => d.get m := by
+      rcases hcase with hsb | ⟨_, hst⟩
+      · obtain ⟨d₁, hr₁, hg₁⟩ := run_writes before d (hlink d hP before hsb)
+        refine ⟨d₁, hr₁, ?_, fun m _ _ => hg₁ m⟩
+        intro n t' h
+        rw [hg₁ n] at h
+        cases hl : lastWrite before n with
+        | some c => rw [hl] at h; simp at h
+        | none => rw [hl] at h; exact hP n t' h
+      · obtain ⟨d₁, hr₁, hP₁, hg₁⟩ := run_writes_through s t hst before d hP
+        refine ⟨d₁, hr₁, hP₁, ?_⟩
+        intro m hms hmt
+        rcases hmt with hmt | hsb
+        · exact hg₁ m hms hmt
+        · -- `s` is not written before: nothing went through the link
+          obtain ⟨d₁', hr₁', hg₁'⟩ := run_writes before d (hlink d hP before hsb)
+          rw [hr₁] at hr₁'
+          cases hr₁'
+          exact hg₁' m
+    obtain ⟨d₁, hr₁, hP₁, hg₁⟩ := hphase1
+    -- phase 2: unlink (missing ok), then symlink
     let d₂ := (d₁.remove s).set s (.link t)
     have hstep₂ : run [Op.unlinkOk s, Op.symlink s t] d₁ = .ok d₂ := by
       simp [run, step, get_remove, d₂]
@@ -572,12 +679,11 @@ theorem run_characterization (before : List (Name × Nat)) (link : Option (Name 
       intro n t' h
       rw [hg₂ n] at h
       by_cases e : s = n
-      · exact ⟨t, by rw [e]⟩
+      · simp only [e, if_true, Option.some.injEq, Entry.link.injEq] at h
+        rw [e, h]
       · simp only [e, if_false] at h
-        rw [hg₁ n] at h
-        cases hl : lastWrite before n with
-        | some c => rw [hl] at h; simp at h
-        | none => rw [hl] at h; exact hP n t' h
+        exact hP₁ n t' h
+    -- phase 3: the writes after the link never name `s`
     obtain ⟨d₃, hr₃, hg₃⟩ := run_writes after d₂ (hlink d₂ hP₂ after hsa)
     refine ⟨d₃, ?_, ?_, ?_⟩
     · simp only [runOps]
@@ -592,14 +698,21 @@ theorem run_characterization (before : List (Name × Nat)) (link : Option (Name 
     · intro m
       rw [hg₃ m]
       simp only [final]
-      cases lastWrite after m with
+      cases hla : lastWrite after m with
       | some c => rfl
       | none =>
         simp only [hg₂ m]
         by_cases e : s = m
         · simp [e]
         · simp only [e, if_false]
-          exact hg₁ m
+          apply hg₁ m (fun h => e h.symm)
+          rcases hcase with hsb | ⟨hta, _⟩
+          · exact Or.inr hsb
+          · left
+            intro hmt
+            have := lastWrite_some_of_mem after t hta
+            rw [← hmt, hla] at this
+            simp at this
 
 /-- **Running again into the directory the previous run left gives the same directory.**
 `d0` is the directory before the first run: fresh (`[]`) or holding any regular files. -/
@@ -648,12 +761,11 @@ example :
      | .error _ => false) = true := by
   decide
 
-/- outside the hypothesis (single root module called like a summary page: `s` is also written
-before the link is made) the concrete run is idempotent all the same, because index.html is
-rewritten after the write that went through the link -/
+/- a single root module called like a summary page: `s` is also written before the link is made, and
+a re-run writes it THROUGH the old link into index.html, which is rewritten afterwards -/
 example :
     let ops := runOps [([3], 10)] (some ([3], [4])) [([4], 12)]
-    wfRun [([3], 10)] (some ([3], [4])) [([4], 12)] = false ∧
+    wfRun [([3], 10)] (some ([3], [4])) [([4], 12)] = true ∧
     (match run ops [] with
      | .ok d1 => (match run ops d1 with
         | .ok d2 => [[3], [4]].all (fun m => d2.get m == d1.get m)
@@ -661,8 +773,9 @@ example :
      | .error _ => false) = true := by
   decide
 
-/- … and a root module called `index` makes the link point at itself: the root page cannot be written -/
-example : (match run (runOps [] (some ([4], [4])) [([4], 12)]) [] with
+/- outside the hypothesis: a root module called `index` makes the link point at itself and the root
+page cannot be written (the run aborts) -/
+example : wfRun [] (some ([4], [4])) [([4], 12)] = false ∧ (match run (runOps [] (some ([4], [4])) [([4], 12)]) [] with
     | .error .eloop => true
     | _ => false) = true := by
   decide
@@ -719,20 +832,5 @@ theorem output_independent_of_old_content (before : List (Name × Nat)) (link : 
             rw [hlb] at this; simp at this
           · rw [ha] at h; simp at h
           · simp at h; exact e0 h.1
-where
-  lastWrite_some_of_mem : ∀ (ws : List (Name × Nat)) (m : Name), (names ws).contains m = true →
-      (lastWrite ws m).isSome = true
-    | [], _, h => by simp [names] at h
-    | w :: ws, m, h => by
-      simp only [lastWrite]
-      cases hl : lastWrite ws m with
-      | some c => rfl
-      | none =>
-        simp only [names, List.map_cons, List.contains_cons, Bool.or_eq_true] at h
-        rcases h with h | h
-        · have : w.1 = m := by simpa using Eq.symm (by simpa using h)
-          simp [this]
-        · have := lastWrite_some_of_mem ws m (by simpa [names] using h)
-          rw [hl] at this; simp at this
 
 end Determinism
